@@ -36,9 +36,15 @@ func (f *DynamicFanOut[T]) run() {
 	for e := range f.input {
 		f.mutex.Lock()
 		for id, o := range f.outputs {
+			gone := f.goneChan(id)
+			select {
+			case <-gone: // removal of this output has been requested: it gets nothing any more (no gaps in what it saw)
+				continue
+			default:
+			}
 			select {
 			case o <- e:
-			case <-f.goneChan(id): // output is being removed
+			case <-gone: // output is being removed
 			}
 		}
 		f.mutex.Unlock()
